@@ -26,7 +26,8 @@ CONSTANTS Kinds,       \* alphabet of doctest kinds for this run
           Deviation
 
 AllKinds == {"warns", "failcompile", "faildirective", "needell", "pass", "failout", "failexc", "skipall", "skippart", "expexc", "comment", "disabled", "disabledfail",
-             "bind", "probe", "rebind", "readg", "leaveskip", "leavereq", "reportstyle", "trail", "swapout", "filters"}
+             "bind", "probe", "rebind", "readg", "leaveskip", "leavereq", "reportstyle", "trail", "swapout", "filters",
+             "reqsub", "reqpkg"}     \* requires a missing submodule of an existing package / requires that package
 
 Disabled(k) == k \in {"disabled", "disabledfail"}
 \* outcome of the doctest run alone in a fresh process with environment e
@@ -35,10 +36,10 @@ Solo3(k, e, o) ==
     [] o \in {"skip", "req"} -> "skipped"                   \* +SKIP / +REQUIRES(unmet) as default option: nothing runs
     [] k \in {"failout", "failexc", "disabledfail", "failcompile", "faildirective"} -> "failed"   \* the last two fail before any part runs
     [] k = "needell" -> (IF o = "noell" THEN "failed" ELSE "passed")   \* want with "..." needs ELLIPSIS
-    [] k \in {"skipall", "comment"} -> "skipped"
+    [] k \in {"skipall", "comment", "reqsub"} -> "skipped"       \* reqsub: its requirement is unmet, nothing runs
     [] k = "trail" -> (IF e = 1 THEN "passed" ELSE "failed")
     [] OTHER -> "passed"
-NothingRuns3(k, o) == (o \in {"skip", "req"} /\ k # "faildirective") \/ k \in {"skipall", "comment"}
+NothingRuns3(k, o) == (o \in {"skip", "req"} /\ k # "faildirective") \/ k \in {"skipall", "comment", "reqsub"}
 
 -----------------------------------------------------------------------------
 VARIABLES
@@ -54,7 +55,7 @@ VARIABLES
   \* history mode
   hist,       \* sequence of <<index, env, outcome>>
   env,        \* 0 | 1
-  leaked,     \* names bound by earlier doctests that a later doctest can see
+  leaked,     \* what earlier doctests left behind for a later doctest to see: names ("N"), a remembered answer ("PKGMISSING")
   modG,       \* value of the module's global G (1 initially)
   defSkip, defReq,  \* pollution of the default directive state
   stale,      \* set of doctest indices whose object still holds unmatched output
@@ -165,9 +166,12 @@ HistRun ==
                 ELSE IF k = "readg" /\ modG # 1 THEN "failed"
                 ELSE IF k = "trail" /\ env = 0 /\ staleNow THEN "passed"
                 ELSE IF k = "warns" /\ filtErr THEN "failed"                 \* its warning became an exception
+                ELSE IF k = "reqpkg" /\ "PKGMISSING" \in leaked THEN "skipped" \* an earlier negative answer was recorded for the package too
                 ELSE Solo(k, env)
        IN /\ hist' = Append(hist, <<i, env, o>>)
-          /\ leaked' = IF k = "bind" /\ (aliased \/ "NoNamespaceIsolation" \in Deviation) /\ ~skippedByDefault THEN leaked \cup {"N"} ELSE leaked
+          /\ leaked' = IF k = "bind" /\ (aliased \/ "NoNamespaceIsolation" \in Deviation) /\ ~skippedByDefault THEN leaked \cup {"N"}
+                       ELSE IF k = "reqsub" /\ "NegativeAnswerSpreads" \in Deviation /\ ~defSkip THEN leaked \cup {"PKGMISSING"}
+                       ELSE leaked
           /\ modG' = IF k = "rebind" /\ aliased /\ ~skippedByDefault THEN 5 ELSE modG
           /\ defSkip' = IF k = "leaveskip" /\ "SharedRunstate" \in Deviation THEN TRUE ELSE defSkip
           /\ defReq' = IF k = "leavereq" /\ "ShallowDefaults" \in Deviation THEN TRUE ELSE defReq
